@@ -1,5 +1,5 @@
 """C03 - a call changes only what is random in it; everything else acts as a constant."""
-from .. import engine, fam_hist, fam_expr
+from .. import engine, fam_mc, fam_hist, fam_expr
 
 LEVEL = "model_checking"
 
@@ -7,6 +7,10 @@ LEVEL = "model_checking"
 def run(tier, seed, limit=0):
     chk = engine.Check("C03", tier, seed)
     scs = fam_hist.family_H(tier, seed) + fam_expr.family_N(tier, seed, per_kind=3 if tier == "quick" else 20)
+    mc_scs, sim_states = fam_mc.family_mc(tier, seed)          # TLC-generated behaviours of MC_VscRand, replayed
+    scs = scs + mc_scs
+    chk.extra_cov["tlc_generated_histories_replayed"] = len(mc_scs)
+    chk.extra_cov["tlc_simulation_states"] = sim_states
     if limit:
         scs = scs[:limit]
     chk.run_scenarios(scs, "Trace_VscRand")
